@@ -47,6 +47,10 @@ k1 = "77105C9B20BCD3122823C8CF6FCC7B956DE33814E95B7FE64FED924594DCEAB3"
 s1 = "41AA28D2F1AB148280CD9ED56FEDA41974053554A42767B83AD043FD39DC049301456C64BA4642A1653C235A98A60249BCD6D3F746B631DF928014F6C5BF9C40"
 add("g12s_A1_pubkey", g12s_ctx(a1) + " IN EB!ScalarMulJ(E, NumBE(%s), P) = <<NumBE(%s), NumBE(%s)>>" % (hexo(d1), hexo(Q1[0]), hexo(Q1[1])))
 add("g12s_A1_sign", g12s_ctx(a1) + " d == NumBE(%s) k == NumBE(%s) e == G12sE(%s, q) r == G12sROf(E, P, k, q) IN G12sSigOct(r, G12sSOf(r, d, k, e, q), 256) = %s" % (hexo(d1), hexo(k1), hexo(h1), hexo(s1)))
+# the same signature as the result of the loop of 6.1 on a tape whose first draws are out of range (0, q); the chunks are
+# little-endian
+add("g12s_A1_signloop", g12s_ctx(a1) + " d == NumBE(%s) e == G12sE(%s, q) sg == G12sSign(E, P, q, d, e, %s \\o %s \\o %s) IN sg.ok /\\ sg.used = 3 /\\ sg.why = <<\"k=0\", \"k>=q\", \"used\">> /\\ G12sSigOct(sg.r, sg.s, 256) = %s" % (
+    hexo(d1), hexo(h1), seq([0] * 32), seq(a1["q"]), hexrev(k1), hexo(s1)))
 add("g12s_A1_verify", g12s_ctx(a1) + " IN G12sVerify(E, P, q, %s, %s, 256, <<NumBE(%s), NumBE(%s)>>)" % (hexo(h1), hexo(s1), hexo(Q1[0]), hexo(Q1[1])))
 bad = bytearray(bytes.fromhex(s1)); bad[0] ^= 1
 add("g12s_A1_altered", g12s_ctx(a1) + " IN ~G12sVerify(E, P, q, %s, %s, 256, <<NumBE(%s), NumBE(%s)>>)" % (hexo(h1), seq(bad), hexo(Q1[0]), hexo(Q1[1])))
@@ -95,6 +99,9 @@ add("dstu_B1_pubkey", dstu_ctx(ds) + " IN E2Neg(C, E2Mul(C, Num(%s), P)) = %s" %
 add("dstu_B1_order", dstu_ctx(ds) + " IN E2IsO(E2Mul(C, n, P))")
 add("dstu_B1_sign", dstu_ctx(ds) + " sig == %s parts == DstuSigParts(sig, 512, n) h == DstuH(%s, 163) e == Num(%s) R == E2Mul(C, e, P) IN parts[3] /\\ Eq(parts[1], DstuTrunc(GMul(h, R[1], C.F), BitLen(n))) /\\ Eq(parts[2], DstuSOf(e, Num(%s), parts[1], n))" % (
     hexrev(dsig), hexrev(dh), hexrev(de), hexrev(dd)))
+# the same signature as the result of the loop of section 11 on a tape whose first draws are trimmed to zero
+add("dstu_B1_signloop", dstu_ctx(ds) + " sg == DstuSign(C, P, n, Num(%s), DstuH(%s, 163), %s \\o %s \\o %s) IN sg.ok /\\ sg.used = 3 /\\ sg.why = <<\"e=0\", \"e=0\", \"used\">> /\\ DstuSigOct(sg.r, sg.s, 512) = %s" % (
+    hexrev(dd), hexrev(dh), seq([0] * 21), seq([0] * 20 + [0xFC]), hexrev(de), hexrev(dsig)))
 add("dstu_B1_verify", dstu_ctx(ds) + " sig == %s parts == DstuSigParts(sig, 512, n) IN DstuVerifyEq(C, P, n, DstuH(%s, 163), parts[1], parts[2], %s)" % (hexrev(dsig), hexrev(dh), Qd))
 add("dstu_B1_compress", dstu_ctx(ds) + " Q == %s xp == DstuCompress(C, Q[1], Q[2]) IN DstuRoundTripDomain(C, Q[1], Q[2]) /\\ DstuRecoverOk(C, xp, Q[1], Q[2]) /\\ ~DstuRecoverOk(C, xp, Q[1], PNorm(PAdd(Q[1], Q[2]))) /\\ DstuRecoverOk(C, PNorm(PAdd(xp, POne)), Q[1], PNorm(PAdd(Q[1], Q[2])))" % Qd)
 # complete small field: trace is additive, tr(x^2) = tr(x), half of the elements have trace 0; z^2 + z has trace 0
@@ -106,6 +113,38 @@ add("gred_equals_pmod", dstu_ctx(ds) + " F7 == DstuField(<<7, 1, 0, 0>>) F13 == 
 add("e2_ld_equals_affine", "LET C == [F |-> DstuField(<<5, 2, 0, 0>>), A |-> 1, B |-> <<1>>] C0 == [F |-> DstuField(<<5, 2, 0, 0>>), A |-> 0, B |-> <<5>>] IN \\A cv \\in {C, C0} : LET mm == PDeg(cv.F) pts == {xy \\in (0..(2 ^ mm - 1)) \\X (0..(2 ^ mm - 1)) : E2OnCurve(cv, PNorm(<<xy[1]>>), PNorm(<<xy[2]>>))} IN \\A xy \\in pts : \\A k \\in 0..24 : LET P == <<PNorm(<<xy[1]>>), PNorm(<<xy[2]>>)>> IN E2Mul(cv, OfInt(k), P) = E2MulA(cv, OfInt(k), P)")
 add("e2_ld_B1", dstu_ctx(ds) + " IN E2Mul(C, OfInt(1000003), P) = E2MulA(C, OfInt(1000003), P)")
 add("e2_tiny_group", "LET C == [F |-> DstuField(<<5, 2, 0, 0>>), A |-> 1, B |-> <<1>>] pts == {xy \\in (0..31) \\X (0..31) : E2OnCurve(C, PNorm(<<xy[1]>>), PNorm(<<xy[2]>>))} N == Cardinality(pts) + 1 IN N >= 22 /\\ N <= 44 /\\ \\A xy \\in pts : LET P == <<PNorm(<<xy[1]>>), PNorm(<<xy[2]>>)>> IN E2IsO(E2Mul(C, OfInt(N), P)) /\\ LET D == E2Dbl(C, P) IN E2IsO(D) \\/ E2OnCurve(C, D[1], D[2])")
+
+# ---- the signing loops on complete tiny structures, where the repetitions are frequent: every signature the loop defines
+# verifies, the branch list ends with "used" at the draw used, a discarded first draw does not influence the result, and
+# every branch (r = 0 and s = 0 included) occurs
+TINY2 = "LET C == [F |-> DstuField(<<5, 2, 0, 0>>), A |-> 1, B |-> <<1>>] n == OfInt(11) P == <<<<8>>, <<23>>>>"     # 22 points, P of order 11
+add("dstu_tiny_order", TINY2 + " IN E2OnCurve(C, P[1], P[2]) /\\ E2IsO(E2Mul(C, n, P)) /\\ ~E2IsO(P)")
+for dI in (1, 4, 10):                                                  # one vector per private key: evaluated in parallel
+    add("dstu_tiny_signloop_d%d" % dI, TINY2 + " D == {%d} HS == {1, 7, %d, 31} T == (0..9) \\X (0..7)" % (dI, 13 if dI == 1 else 19) +
+        " res == [c \\in D \\X HS \\X T |-> DstuSign(C, P, n, OfInt(c[1]), <<c[2]>>, <<c[3][1], c[3][2]>>)]"
+        " Qof == [d \\in D |-> E2Neg(C, E2Mul(C, OfInt(d), P))]"
+        " IN (\\A c \\in D \\X HS \\X T : LET sg == res[c] h == <<c[2]>> IN"
+        " IF sg.ok THEN DstuSigInRange(sg.r, sg.s, n) /\\ DstuVerifyEq(C, P, n, h, sg.r, sg.s, Qof[c[1]]) /\\ Len(sg.why) = sg.used /\\ sg.why[sg.used] = \"used\""
+        " /\\ (\\A j \\in 1..(sg.used - 1) : sg.why[j] \\in {\"e=0\", \"r=0\", \"s=0\"})"
+        " /\\ (sg.used = 2 => LET s2 == DstuSign(C, P, n, OfInt(c[1]), h, <<c[3][2]>>) IN s2.ok /\\ s2.used = 1 /\\ Eq(s2.r, sg.r) /\\ Eq(s2.s, sg.s))"
+        " ELSE Len(sg.why) = 2 /\\ \\A j \\in 1..2 : sg.why[j] \\in {\"e=0\", \"r=0\", \"s=0\"})"
+        " /\\ (\\A w \\in {\"e=0\", \"r=0\", \"s=0\"} : \\E c \\in D \\X HS \\X T : res[c].why = <<w, \"used\">>)"
+        " /\\ (\\A e \\in 8..9 : res[<<%d, 1, <<e, 1>>>>] = res[<<%d, 1, <<e - 8, 1>>>>])" % (dI, dI))
+TINYP = "LET q == OfInt(19) p == OfInt(23) E == EB!BCurve(p, OfInt(3), OfInt(15)) P == EB!BPt(OfInt(2), OfInt(12))"           # 19 points (prime), abscissa 19 occurs: r = 0
+add("g12s_tiny_order", TINYP + " IN EB!IsOnCurve(E, P[1], P[2]) /\\ EB!IsO(EB!ScalarMulJ(E, q, P)) /\\ ~EB!IsO(EB!ScalarMulJ(E, OfInt(18), P))")
+add("g12s_tiny_signloop", TINYP + " D == {1, 7, 18} ES == {1, 5} T == (0..31) \\X {0, 3, 11, 25}"
+    " res == [c \\in D \\X ES \\X T |-> G12sSign(E, P, q, OfInt(c[1]), OfInt(c[2]), <<c[3][1], c[3][2]>>)]"
+    " Qof == [dI \\in D |-> EB!ScalarMulJ(E, OfInt(dI), P)]"
+    " IN (\\A c \\in D \\X ES \\X T : LET sg == res[c] IN"
+    " IF sg.ok THEN G12sSigInRange(sg.r, sg.s, q) /\\ G12sVerifyEq(E, P, q, OfInt(c[2]), sg.r, sg.s, Qof[c[1]]) /\\ Len(sg.why) = sg.used /\\ sg.why[sg.used] = \"used\""
+    " /\\ (\\A j \\in 1..(sg.used - 1) : sg.why[j] \\in {\"k=0\", \"k>=q\", \"r=0\", \"s=0\"})"
+    " /\\ (sg.used = 2 => LET s2 == G12sSign(E, P, q, OfInt(c[1]), OfInt(c[2]), <<c[3][2]>>) IN s2.ok /\\ s2.used = 1 /\\ Eq(s2.r, sg.r) /\\ Eq(s2.s, sg.s))"
+    " ELSE Len(sg.why) = 2 /\\ \\A j \\in 1..2 : sg.why[j] \\in {\"k=0\", \"k>=q\", \"r=0\", \"s=0\"})"
+    " /\\ (\\A w \\in {\"k=0\", \"k>=q\", \"r=0\", \"s=0\"} : \\E c \\in D \\X ES \\X T : res[c].why = <<w, \"used\">>)"
+    " /\\ (\\A k \\in 32..63 : G12sSign(E, P, q, One, One, <<k, 3>>) = res[<<1, 1, <<k - 32, 3>>>>])")
+add("signloop_gives_up", "LET q == OfInt(19) z == [i \\in 1..70 |-> 0] IN ~SignLoop(z, 1, LAMBDA j : [why |-> \"k=0\", r |-> Zero, s |-> Zero], LAMBDA w : TRUE).ok"
+    " /\\ Len(SignLoop(z, 1, LAMBDA j : [why |-> \"k=0\", r |-> Zero, s |-> Zero], LAMBDA w : TRUE).why) = MaxTries"
+    " /\\ SignLoop(z \\o <<1>>, 1, LAMBDA j : IF j = 71 THEN [why |-> \"used\", r |-> One, s |-> One] ELSE [why |-> \"k=0\", r |-> Zero, s |-> Zero], LAMBDA w : FALSE).used = 71")
 
 # ---- pfok (test parameters, l = 638)
 pf = std("pfok", "test")
